@@ -185,6 +185,15 @@ Theorem wire_isolation : forall (ops : list op) (reqs reqs' : list wreq) (st st'
   wire_replies_for ops i reqs (wire_spec ops st reqs) = wire_replies_for ops i reqs' (wire_spec ops st' reqs').
 Proof. exact wire_isolation_lemma. Qed.
 
+(** Concurrent clients, every schedule: [m] is any interleaving of the requests of one client (tag [true]) with the
+    requests of all other clients (tag [false]).  If no request of the others is routed to a host that one of
+    the client's requests is routed to, the client receives exactly the replies it would receive alone. *)
+Theorem wire_concurrent_clients : forall (ops : list op) (m : list (bool * wreq)) (st st' : nat -> hstate),
+  (forall i, wire_touches ops (mine m) i = true -> wire_touches ops (others m) i = false) ->
+  (forall i, wire_touches ops (mine m) i = true -> st i = st' i) ->
+  tagged_replies m (wire_spec ops st (map snd m)) = wire_spec ops st' (mine m).
+Proof. exact concurrent_client. Qed.
+
 (** The code before the three repairs of this round violated the property (each witness is replayed on
     the real code by the corpus; the last conjunct is the repaired code on the same witness). *)
 Theorem absent_host_refuted : forall auth_ok : bytes -> bool,
